@@ -80,6 +80,8 @@ def run_dmrg(spec):
             opts['lanczos_params'] = {'E_shift': spec['E_shift']}
         if spec['chi_list'] and spec['chi_max']:
             opts['chi_list'] = {0: 2, 2: spec['chi_max']}
+        elif spec['chi_list']:
+            opts['chi_list'] = {0: 2, 3: None}  # documented: None stands for trunc_params['chi_max'], i.e. untruncated from sweep 3 on
         tags = dict(engine=spec['engine'], mixer=str(mixer), diag=spec['diag'])
         tags0 = dict(tags)
         cls = dmrg.SingleSiteDMRGEngine if single else dmrg.TwoSiteDMRGEngine
@@ -117,7 +119,7 @@ def run_dmrg(spec):
         truncating = spec['chi_max'] is not None
         # the reported energy is the one of the last local update, before its truncation (documented: sweep_stats E): compare up to
         # the reported truncation of the last sweep
-        tolE = 1e-8 * max(1., nH) + 20 * nH * (err if truncating else 0.) * L
+        tolE = 1e-8 * max(1., nH) + 20 * nH * err * L  # err = 0 if the last sweep did not truncate
         if not (mixer is not None and eng.mixer is not None):
             require(abs(E - EH) <= tolE, 'energy-mismatch', 'E_run = %r, <psi|H|psi> = %r (max trunc_err of the last sweep %r, sweeps %d)' % (E, EH, err, eng.sweeps), shift=spec['E_shift'] is not None, **tags)
         require(E >= Eref - 1e-8 * max(1., nH) - tolE, 'E_run-below-ground-state', 'E_run = %r < E0(sector) = %r' % (E, Eref), shift=spec['E_shift'] is not None, **tags)
